@@ -383,6 +383,10 @@ def r11(tree, rep, tier):
 
 
 def run(tree, rep, tier):
+    from .. import itermut
+    itermut.check(tree, rep, "C10.R12", ("src/wormhole/_dilation/connection.py", "src/wormhole/_dilation/outbound.py", "src/wormhole/_dilation/inbound.py",
+                                         "src/wormhole/_dilation/manager.py", "src/wormhole/_dilation/subchannel.py"),
+                  "a queued record is skipped: it is never delivered although it was acknowledged")
     from .. import sharedstate
     sharedstate.check(tree, rep, "C10.R0")
     r10(tree, rep)
